@@ -28,7 +28,7 @@ var exprVarPool = []string{"a", "b", "c", "d", "e", "x1", "_v", "Total", "n9", "
 var exprTypes = []string{"int", "int", "int", "float", "str", "bool"}
 
 func NewExprGen(r *Rand) *ExprGen {
-	return &ExprGen{R: r, Vars: map[string]string{}, MaxVars: 5, Budget: 25}
+	return &ExprGen{R: r, Vars: map[string]string{}, MaxVars: 5, Budget: 15 + 10*Scale}
 }
 
 func (g *ExprGen) varOf(typ string) string {
@@ -304,7 +304,7 @@ func (g *ExprGen) args(typ string, n int, depth int) string {
 // attempted (C01 is not claimed), everything composite is parenthesised.
 func (g *ExprGen) Top() string {
 	typ := g.R.Pick([]string{"int", "int", "bool", "bool", "float", "str", "arr", "long", "span"})
-	return g.Gen(typ, g.R.Range(1, 4))
+	return g.Gen(typ, g.R.Range(1, 3+Scale))
 }
 
 // ValueOf draws a value for a variable of the given generator type.
